@@ -218,6 +218,12 @@ def job_from_dcm(ctx, k, mi):
                lambda idx: np.asarray(QuaternionArray(DCM=Rs[sub[idx]].copy(), method=meth, **kw)),
                lambda i: np.asarray(Quaternion(dcm=Rs[sub[i]].copy(), method=meth, **kw)), 'twin:from_DCM', signfree=(meth == 'itzhack'))
     ctx.notes[f'from_DCM rows with finite single result [{mn}]'] = len(ok)
+    if mi == 0:
+        # the method argument omitted on both sides: the array constructor returns the very rows (same sign) the scalar constructor returns
+        _cmp_batch(ctx, 'QuaternionArray(DCM=) row = Quaternion(dcm=) with the method omitted (same elements, same sign)', labels,
+                   lambda idx: np.asarray(QuaternionArray(DCM=Rs[idx].copy())), lambda i: np.asarray(Quaternion(dcm=Rs[i].copy())), 'twin:from_DCM(default)')
+        _cmp_batch(ctx, 'QuaternionArray.from_DCM row = Quaternion.from_DCM with the method omitted (same elements, same sign)', labels,
+                   lambda idx: np.asarray(QuaternionArray().from_DCM(Rs[idx].copy(), inplace=False)), lambda i: np.asarray(Quaternion().from_DCM(Rs[i].copy())), 'twin:from_DCM(default)')
 
 
 def job_metrics(ctx, k):
@@ -494,6 +500,66 @@ def job_dtypes_estimator(ctx, ename):
     ctx.sample({'estimator': ename, 'dtypes': DTYPES})
 
 
+def job_protocol(ctx, k):
+    """The array class through the Python / NumPy protocol: after each in-place method (slerp_nan, remove_jumps, rotate_by(inplace=True)) row i
+    obtained by indexing, iteration, np.asarray, to_array() and the .array attribute is one and the same, and feeding it to the scalar class
+    gives what the array methods give for row i.  Also: versors=False arrays against versor=False scalars; the method argument omitted."""
+    from ahrs import Quaternion, QuaternionArray
+    base = rq.qunit(A.MENU[k])
+    rows = [rq.qmul(base, rq.axang2q(ax, 0.07 * j)) for j, ax in enumerate(A.AXES()[:10])]
+    def build(kind):
+        X = np.array(rows)
+        if kind in ('jumps', 'nan+jumps'):
+            X[3:6] *= -1.0; X[8] *= -1.0
+        Qo = QuaternionArray(X)
+        if kind in ('nan', 'nan+jumps'):            # gaps are written into an existing array (the route the repository's own test uses)
+            Qo[2] = np.nan; Qo[6:8] = np.nan
+        return Qo
+    ops = [('slerp_nan()', 'nan', lambda Q: Q.slerp_nan()), ('slerp_nan()', 'nan+jumps', lambda Q: Q.slerp_nan()), ('remove_jumps()', 'jumps', lambda Q: Q.remove_jumps()),
+           ('rotate_by(q, inplace=True)', 'plain', lambda Q: Q.rotate_by(rq.qunit(A.MENU[(k + 2) % 8]).copy(), inplace=True)),
+           ('remove_jumps() then rotate_by(inplace=True)', 'jumps', lambda Q: (Q.remove_jumps(), Q.rotate_by(rq.qunit(A.MENU[(k + 2) % 8]).copy(), inplace=True)))]
+    for on, kind, op in ops:
+        key = f'op={on} data={kind} k{k}'
+        ctx.evals += 1
+        try:
+            Q = build(kind)
+            op(Q)
+            views = {'np.asarray(Q)': np.asarray(Q, float), 'Q.to_array()': np.asarray(Q.to_array(), float), 'Q.array': np.asarray(Q.array, float),
+                     'iteration': np.array([np.asarray(r, float) for r in Q]), 'indexing': np.array([np.asarray(Q[i], float) for i in range(len(rows))]),
+                     'columns w,x,y,z': np.c_[Q.w, Q.x, Q.y, Q.z]}
+        except Exception as ex:
+            ctx.fail('in-place method then reading the rows raises', key, repr(ex)[:160], 'rows')
+            continue
+        ref = views['Q.to_array()']
+        for vn, V in views.items():
+            same = V.shape == ref.shape and bool(np.array_equal(np.isnan(V), np.isnan(ref))) and bool(np.allclose(np.nan_to_num(V), np.nan_to_num(ref), rtol=0, atol=0))
+            ctx.expect(same, 'after an in-place method every way of reading row i gives the same row', f'{key} via={vn}', V, ref)
+        if not np.isnan(ref).any() and np.allclose(np.linalg.norm(ref, axis=1), 1.0, atol=1e-9):
+            try:
+                Rb = np.asarray(Q.to_DCM())
+                for i in range(0, len(rows), 3):
+                    ctx.close(np.asarray(Quaternion(np.asarray(Q[i], float)).to_DCM()), Rb[i], TOL, 'after an in-place method Quaternion(Q[i]).to_DCM() = Q.to_DCM()[i]', f'{key} row={i}')
+            except Exception as ex:
+                ctx.fail('after an in-place method the twin conversion raises', key, repr(ex)[:160], 'matrices')
+        ctx.cls('protocol:in-place')
+    # versors=False arrays against versor=False scalars (non-unit rows keep their norm through conjugation and the accessors)
+    N_ = np.array(rows[:6]) * np.array([2.0, 0.5, 5.7, 1.0, 0.25, 3.0])[:, None]
+    for order in ('H', 'S'):
+        X = N_ if order == 'H' else np.roll(N_, -1, axis=1)
+        QA = QuaternionArray(X.copy(), versors=False, order=order)
+        for nm, arr_fn, one_fn in (('conjugate', lambda: np.asarray(QA.conjugate(), float), lambda i: np.asarray(Quaternion(X[i].copy(), versor=False, order=order).conjugate, float)),
+                                   ('conj', lambda: np.asarray(QA.conj(), float), lambda i: np.asarray(Quaternion(X[i].copy(), versor=False, order=order).conj, float)),
+                                   ('w,x,y,z', lambda: np.c_[QA.w, QA.x, QA.y, QA.z], lambda i: np.array([getattr(Quaternion(X[i].copy(), versor=False, order=order), c) for c in 'wxyz'], float))):
+            try:
+                Bv = arr_fn()
+                for i in range(len(X)):
+                    ctx.close(Bv[i], one_fn(i), 1e-14, f'versors=False: QuaternionArray.{nm} row = Quaternion(versor=False).{nm} (non-unit rows keep their norm)', f'order={order} row={i} k{k}')
+            except Exception as ex:
+                ctx.fail(f'versors=False: {nm} raises', f'order={order} k{k}', repr(ex)[:160], 'rows')
+        ctx.cls('protocol:versors=False')
+    ctx.sample({'protocol_ops': [o[0] for o in ops]})
+
+
 def job_helpers(ctx, k):
     """Public per-sample helpers of the recursive filters that exist for one sample and for N samples: Complementary.am_estimation
     (the only on-line route of that filter), with and without magnetometer."""
@@ -520,6 +586,7 @@ def run(ctx):
         jobs += [('job_from_dcm', (kk, mi)) for mi in range(len(METHODS))]
         jobs.append(('job_metrics', (kk,)))
         jobs.append(('job_helpers', (kk,)))
+        jobs.append(('job_protocol', (kk,)))
         for e in rf.registry():
             if e.batch is not None:
                 jobs.append(('job_estimator', (e.name, kk)))
